@@ -16,10 +16,10 @@ META = {
     ),
     "anchors": ["abelian_core._fuse_blocks_via_insert", "abelian_core._fuse_blocks_via_concat", "abelian_core.AbelianArray.to_dense", "abelian_core.AbelianArray.fill_missing_blocks", "abelian_core._tensordot_via_fused", "linalg._get_qr_fn", "utils.get_random_fill_fn"],
     "floors": {
-        "quick": {"evaluations": 20000, "distinct_nontrivial": 3000, "tables": {"dtype/float32": 3000, "dtype/complex64": 3000, "dtype/complex128": 3000, "zero-creation/fuse-insert": 300, "zero-creation/fuse-concat": 300, "zero-creation/to_dense": 300, "zero-creation/fill_missing_blocks": 300, "zero-creation/fused-contraction": 200, "twin-compared": 8000, "mixed-contraction/terms>=32": 400, "twin-compared/mixed-blocks": 10000}},
+        "quick": {"evaluations": 20000, "distinct_nontrivial": 3000, "tables": {"dtype/float32": 3000, "dtype/complex64": 3000, "dtype/complex128": 3000, "zero-creation/fuse-insert": 300, "zero-creation/fuse-concat": 300, "zero-creation/to_dense": 300, "zero-creation/fill_missing_blocks": 300, "zero-creation/fused-contraction": 200, "twin-compared": 8000, "mixed-contraction/terms>=32": 400, "twin-compared/mixed-blocks": 10000, "large/complex64:zero-imaginary-part": 100, "large/complex128:zero-imaginary-part": 100}},
         "thorough": {"evaluations": 500000, "distinct_nontrivial": 60000},
     },
-    "wall": {"quick": 100, "thorough": 1700},
+    "wall": {"quick": 200, "thorough": 1700},
 }
 
 REAL = {"float32": "float32", "float64": "float64", "complex64": "float32", "complex128": "float64"}
@@ -311,6 +311,63 @@ def mixed_blocks(ctx, rng):
             ctx.nontrivial(("mixed-blocks", name, tuple(dts), struct_sig(x)))
 
 
+def large_blocks(ctx, rng):
+    """Matrices with a 32-48 wide sector in single precision or complex type; complex data is
+    generic, or real-valued (imaginary part exactly zero), or purely imaginary: every
+    factorisation returns factors of the type it was given."""
+    sr = ctx.sr
+    dt = rng.choice(["complex128", "complex64", "complex64", "float32", "complex128"])
+    sym = rng.choice(["Z2", "U1", "Z2Z2"])
+    ferm = rng.random() < 0.4
+    big = rng.randint(32, 48)
+    pool = gen.POOL[sym]
+    cs = rng.sample(pool, 2)
+    r = sr.BlockIndex(dict(sorted({cs[0]: big, cs[1]: rng.randint(1, 3)}.items())), dual=rng.random() < 0.5)
+    square = rng.random() < 0.6
+    c = gen.conj_index(sr, r) if square else sr.BlockIndex(dict(sorted({cs[0]: rng.randint(32, 40), cs[1]: rng.randint(1, 3)}.items())), dual=rng.random() < 0.5)
+    x = gen.make_array(sr, rng, sym, [r, c], charge=R.identity(sym) if square else None, fermionic=ferm, values=gen.Values(rng, "gauss", dt), sparsity=0.0, nphase=rng.choice([0, 1]), exotic=False)
+    if not x.blocks:
+        return
+    flavour = "generic"
+    if np.dtype(dt).kind == "c":
+        flavour = rng.choice(["generic", "zero-imaginary-part", "zero-imaginary-part", "zero-real-part"])
+        for s_ in list(x.blocks):
+            b = np.asarray(x.blocks[s_])
+            if flavour == "zero-imaginary-part":
+                x.blocks[s_] = b.real.astype(dt)
+            elif flavour == "zero-real-part":
+                x.blocks[s_] = (1j * b.imag).astype(dt)
+    ctx.count("large", f"{dt}:{flavour}")
+    wit = {"dtype": dt, "data": flavour, "x": describe(x)}
+    steps = [
+        ("svd", lambda a: sr.linalg.svd(a), "svd"),
+        ("svd_truncated", lambda a: sr.linalg.svd_truncated(a, max_bond=rng.randint(3, 40), absorb=rng.choice([None, -1, 0, 1])), "svd"),
+        ("qr", lambda a: sr.linalg.qr(a), "same"),
+        ("qr-stabilized", lambda a: sr.linalg.qr(a, stabilized=True), "same"),
+        ("fuse-unfuse", lambda a: a.fuse((0, 1)).unfuse_all(), "same"),
+        ("self-product", lambda a: sr.tensordot(a, a.conj(), axes=([1], [1]), preserve_array=True), "same"),
+        ("norm", lambda a: a.norm(), "scalar-real"),
+    ]
+    if square:
+        h = x + x.dagger() if not ferm else None
+        if h is not None:
+            steps.append(("eigh", lambda a: sr.linalg.eigh(a + a.dagger()), "svd"))
+    for name, f, rule in steps:
+        o = ctx.call(f, x)
+        ctx.evaluated()
+        ctx.count("dtype", dt)
+        ctx.count("op", "large:" + name)
+        w = dict(wit, op=name)
+        if not o.ok:
+            if isinstance(o.exc, Warning):
+                ctx.violation(f"complex-warning:{name}", f"{name} on {dt} data emitted {o.exc!r}", w)
+            else:
+                ctx.count("raises", f"large:{name}:{o.excname}")
+            continue
+        if judge_dtype(ctx, "large:" + name, rule, o.value, dt, w) and dt != "float64":
+            ctx.nontrivial(("large", name, dt, flavour, sym, ferm))
+
+
 def mixed_contraction(ctx, rng):
     """Contractions of two homogeneous operands of DIFFERENT element types (real x complex,
     single x double), over few or very many aligned sector pairs per output block, in every
@@ -394,6 +451,8 @@ def run(ctx):
         ctx.run_case(run_program, ctx, rng)
     for _, rng in ctx.cases("dedicated", ctx.budget(21000, 400000)):
         ctx.run_case(dedicated, ctx, rng)
+    for _, rng in ctx.cases("large-blocks", ctx.budget(900, 18000)):
+        ctx.run_case(large_blocks, ctx, rng)
     for _, rng in ctx.cases("mixed-blocks", ctx.budget(5000, 100000)):
         ctx.run_case(mixed_blocks, ctx, rng)
     for _, rng in ctx.cases("mixed-contraction", ctx.budget(6000, 120000)):
